@@ -667,7 +667,7 @@ def draw_case(d, kinds=None, *, degenerate=False, general_position=False,
                 m[..., :, idx] = False
             o['source_activity_mask'] = m
         if kind in ('cwmm', 'cbmm') and d.int(0, 3) == 0:
-            case.trainer_kwargs['max_concentration'] = d.choice([100, 500])
+            case.trainer_kwargs['max_concentration'] = d.choice([100, 500, 1000] if kind == 'cwmm' else [100, 500])
         if kind in ('cwmm', 'cbmm') and d.int(0, 3) == 0:
             case.trainer_kwargs['dimension'] = D      # explicit feature dimension
         if kind == 'cwmm' and d.int(0, 4) == 0:
